@@ -17,4 +17,7 @@ if prev:
     t += ("\n\nOther people have already produced the following breaking changes for this property (PREVIOUS). Yours must differ from ALL of them "
           "in mechanism, in code site (prefer a file none of them touched if the property's anchors allow it - including cmd/, configuration handling, "
           "shutdown/start-up paths, error mapping, goroutine structure, use of a dependency's API) and in the condition needed to manifest:\n" + "\n".join(prev) + "\n")
+extra = os.environ.get("SEED_EXTRA_RULE", "")
+if extra:
+    t += "\n\nAdditional requirement for this round: " + extra + "\n"
 print(t)
